@@ -2,7 +2,7 @@
 import os, sys
 sys.path.insert(0, os.path.dirname(os.path.abspath(__file__)))
 import vlib
-GEN = ["exit_table", "rule_fields", "rule_meta", "doc_tables", "entities", "ext_flags", "parser_statics"]
+GEN = ["exit_table", "rule_fields", "rule_meta", "doc_tables", "entities", "ext_flags", "parser_statics", "emph_chars"]
 if __name__ == "__main__":
     with vlib.build_lock():
         res = vlib.translate(GEN)
